@@ -6,7 +6,8 @@
  3. export of all macro-steps (external action + cascade), edge-covering behaviours with the expected observation
  4. replay on the real adaptors under ASan/UBSan; harness sources with address-tracked next()/cleanup() operation states
  5. every recorded execution is validated by TLC against the monitor StreamMon (the arbiter for C13); observation
-    differences against Streams.tla in the fields the statement talks about are reported as well, the rest is drift."""
+    differences against Streams.tla in the elements handed to the consumer and in the consumer's result (what the adaptors'
+    definitions prescribe, given the scripted reactions of the sources) are reported as well; everything else is drift."""
 import collections, concurrent.futures, hashlib, itertools, json, os, sys, time
 
 sys.path.insert(0, os.path.join(os.path.dirname(__file__), "..", "..", "tools"))
@@ -132,12 +133,14 @@ def compare(exp, got):
     if exp["res"] != got["res"]:
         d["C13.result"] = "results: expected %s got %s" % (exp["res"], got["res"])
     if per_src(exp["sev"]) != per_src(got["sev"]):
-        d["C13.source_ops"] = "source next()/cleanup() operations: expected %s got %s" % (per_src(exp["sev"]), per_src(got["sev"]))
+        # when the sources' operations start / complete is internal timing unless it shows in the elements, the result or the monitor's
+        # protocol rules: drift
+        d["drift.source_ops"] = "source next()/cleanup() operations: expected %s got %s" % (per_src(exp["sev"]), per_src(got["sev"]))
     elif exp["sev"] != got["sev"]:
         d["drift.sev"] = "source event order / stop observations differ: expected %s got %s" % (exp["sev"], got["sev"])
     if exp["fn"] != got["fn"]:
         if sorted(map(tuple, exp["fn"])) != sorted(map(tuple, got["fn"])):
-            d["C13.fn"] = "callable invocations: expected %s got %s" % (exp["fn"], got["fn"])
+            d["drift.fn"] = "callable invocations: expected %s got %s" % (exp["fn"], got["fn"])
         else:
             d["drift.fn_order"] = "order of callable invocations differs"
     return d
